@@ -8,16 +8,17 @@
 From VF Require Import Common.Base C12.Model C12.Spec C12.Proofs C12.Proofs2 C12.F64 C12.Interval C12.DecidedProofs C12.Race.
 Local Open Scope Z_scope.
 
-Inductive rev := EGet (obs : option entry) | EStore (s : rstore).
+Inductive rev := EGet (obs : option entry) | EStore (s : rstore) | ESweep.   (* ESweep: a sweep racing the round *)
 
-Definition ev_op (k : Z) (e : rev) : op := match e with EGet _ => OGet k | EStore s => r_op s end.
+Definition ev_op (k : Z) (e : rev) : op := match e with EGet _ => OGet k | EStore s => r_op s | ESweep => OSweep end.
 Definition ev_out (e : rev) : out :=
   match e with
   | EGet o => OutGet o
   | EStore s => match r_op s with OSet _ _ _ => OutUnit | _ => OutBool (r_ok s) end
+  | ESweep => OutUnit
   end.
-Definition ev_stores (e : rev) : list rstore := match e with EGet _ => [] | EStore s => [s] end.
-Definition ev_gets (e : rev) : list (option entry) := match e with EGet o => [o] | EStore _ => [] end.
+Definition ev_stores (e : rev) : list rstore := match e with EStore s => [s] | _ => [] end.
+Definition ev_gets (e : rev) : list (option entry) := match e with EGet o => [o] | _ => [] end.
 Definition stores_of (lin : list (rev * Z)) : list rstore := flat_map (fun x => ev_stores (fst x)) lin.
 Definition gets_of (lin : list (rev * Z)) : list (option entry) := flat_map (fun x => ev_gets (fst x)) lin.
 
@@ -50,7 +51,7 @@ Qed.
 
 Definition wf_ev (x : rev * Z) : Prop :=
   match fst x with
-  | EGet _ => True
+  | EGet _ | ESweep => True
   | EStore s => 0 < r_a s /\ r_a s <= snd x <= r_b s /\
                 match r_op s with
                 | OSet k' _ _ => k' = k /\ r_ok s = true
@@ -59,24 +60,27 @@ Definition wf_ev (x : rev * Z) : Prop :=
                 end
   end.
 
-(* nothing stored in the round expires at any instant of T *)
+(* nothing stored in the round expires, or is due for a sweep, at any instant of T *)
 Definition keeps_ev (x : rev * Z) : Prop :=
   match fst x with
-  | EGet _ => True
+  | EGet _ | ESweep => True
   | EStore s => forall v ttl, store_val (r_op s) = Some (v, ttl) ->
-                forall t', In t' T -> expired t' (new_expire defttl (snd x) ttl) = false
+                forall t', In t' T -> expired t' (new_expire defttl (snd x) ttl) = false /\
+                                      swept fl t' (new_expire defttl (snd x) ttl) = false
   end.
 
-Definition KInv (m : smap) (seen : list rstore) : Prop :=
+Definition KInv0 (m : smap) (seen : list rstore) : Prop :=
   (existsb r_ok seen = false /\
    (m_get m k = None \/ exists v d, m_get m k = Some (v, d) /\ forall t, In t T -> expired t d = true))
   \/
-  (exists v d s, m_get m k = Some (v, d) /\ In s seen /\ smatch s v d /\ forall t, In t T -> expired t d = false).
+  (exists v d s, m_get m k = Some (v, d) /\ In s seen /\ smatch s v d /\
+                 forall t, In t T -> expired t d = false /\ swept fl t d = false).
+Definition KInv (m : smap) (seen : list rstore) : Prop := ksorted m /\ KInv0 m seen.
 
 Lemma KInv_new m seen s v t ttl :
   store_val (r_op s) = Some (v, ttl) -> r_ok s = true -> 0 < r_a s -> r_a s <= t <= r_b s ->
-  (forall t', In t' T -> expired t' (new_expire defttl t ttl) = false) ->
-  KInv (m_put k (v, new_expire defttl t ttl) m) (seen ++ [s]).
+  (forall t', In t' T -> expired t' (new_expire defttl t ttl) = false /\ swept fl t' (new_expire defttl t ttl) = false) ->
+  KInv0 (m_put k (v, new_expire defttl t ttl) m) (seen ++ [s]).
 Proof.
   intros Hv Hok Ha Ht Hk. right. exists v, (new_expire defttl t ttl), s.
   split; [now rewrite m_get_put, Z.eqb_refl|]. split; [apply in_or_app; right; now left|]. split; [|exact Hk].
@@ -84,11 +88,11 @@ Proof.
   destruct (new_range defttl (r_a s) (r_b s) ttl) as [r|] eqn:Er; auto. eapply in_range_new'; eauto.
 Qed.
 
-Lemma KInv_more m seen s : r_ok s = false -> KInv m seen -> KInv m (seen ++ [s]).
+Lemma KInv_more m seen s : r_ok s = false -> KInv0 m seen -> KInv0 m (seen ++ [s]).
 Proof.
   intros Hf [[He Hm]|(v & d & s0 & Hg & Hin & Hs & Hk)].
   - left. split; auto. rewrite existsb_app, He. simpl. now rewrite Hf.
-  - right. exists v, d, s0. repeat split; auto; try apply Hs. apply in_or_app. now left.
+  - right. exists v, d, s0. repeat split; auto; try apply Hs; try apply Hk; auto. apply in_or_app. now left.
 Qed.
 
 Lemma race_step m seen e t : KInv m seen -> wf_ev (e, t) -> keeps_ev (e, t) -> In t T ->
@@ -96,33 +100,42 @@ Lemma race_step m seen e t : KInv m seen -> wf_ev (e, t) -> keeps_ev (e, t) -> I
   KInv (fst (sstep fl defttl m t (ev_op k e))) (seen ++ ev_stores e) /\
   (forall all, incl seen all -> forallb (robs_ok defttl all) (ev_gets e) = true).
 Proof.
-  intros HK Hwf Hkeep HtT Hout. destruct e as [obs|s]; simpl in *.
+  intros [Hsort HK] Hwf Hkeep HtT Hout. destruct e as [obs|s|]; simpl in *.
   - rewrite app_nil_r.
     destruct HK as [[He [Hm|(v & d & Hm & Hex)]]|(v & d & s0 & Hm & Hin & Hs & Hk)]; rewrite Hm in *; simpl in *.
-    + inversion Hout; subst obs. split; [left; split; auto|]. intros; reflexivity.
+    + inversion Hout; subst obs. split; [split; [exact Hsort|left; split; auto]|]. intros; reflexivity.
     + rewrite (Hex t HtT) in *. simpl in *. inversion Hout; subst obs.
-      split; [|intros; reflexivity]. left. split; auto. left. now rewrite m_get_del, Z.eqb_refl.
-    + rewrite (Hk t HtT) in *. simpl in *. inversion Hout; subst obs.
-      split; [right; exists v, d, s0; auto|]. intros all Hincl. simpl. rewrite andb_true_r.
+      split; [|intros; reflexivity]. split; [now apply ksorted_del|]. left. split; auto. left.
+      now rewrite m_get_del, Z.eqb_refl.
+    + rewrite (proj1 (Hk t HtT)) in *. simpl in *. inversion Hout; subst obs.
+      split; [split; [exact Hsort|right; exists v, d, s0; auto]|]. intros all Hincl. simpl. rewrite andb_true_r.
       apply existsb_exists. exists s0. split; [now apply Hincl|now apply smatch_rmatches].
   - split; [|intros; reflexivity].
     unfold wf_ev in Hwf; simpl in Hwf. destruct Hwf as (Ha & Ht & Hop). unfold keeps_ev in Hkeep; simpl in Hkeep.
     destruct (r_op s) as [k' v ttl|k' v ttl|k' v ttl| | | | | | | | ] eqn:Eop; try contradiction.
-    + (* Set *) destruct Hop as [-> Hok]. simpl.
+    + (* Set *) destruct Hop as [-> Hok]. simpl. split; [now apply ksorted_put|].
       apply KInv_new; [rewrite Eop; reflexivity|exact Hok|exact Ha|exact Ht|apply (Hkeep v ttl eq_refl)].
     + (* SetIfAbsent *) subst k'. simpl in *.
       destruct HK as [[He [Hm|(v0 & d0 & Hm & Hex)]]|(v0 & d0 & s0 & Hm & Hin & Hs & Hk)]; rewrite Hm in *; simpl in *.
-      * inversion Hout as [Hb].
+      * inversion Hout as [Hb]. split; [now apply ksorted_put|].
         apply KInv_new; [rewrite Eop; reflexivity|now symmetry|exact Ha|exact Ht|apply (Hkeep v ttl eq_refl)].
-      * inversion Hout as [Hb]. apply KInv_more; auto. left. split; auto. right. exists v0, d0; auto.
-      * inversion Hout as [Hb]. apply KInv_more; auto. right. exists v0, d0, s0; auto.
+      * inversion Hout as [Hb]. split; [exact Hsort|]. apply KInv_more; auto. left. split; auto. right. exists v0, d0; auto.
+      * inversion Hout as [Hb]. split; [exact Hsort|]. apply KInv_more; auto. right. exists v0, d0, s0; auto.
     + (* Replace *) subst k'. simpl in *.
       destruct HK as [[He [Hm|(v0 & d0 & Hm & Hex)]]|(v0 & d0 & s0 & Hm & Hin & Hs & Hk)]; rewrite Hm in *; simpl in *.
-      * inversion Hout as [Hb]. apply KInv_more; auto. left. split; auto.
-      * rewrite (Hex t HtT) in *. simpl in *. inversion Hout as [Hb]. apply KInv_more; auto.
-        left. split; auto. left. now rewrite m_get_del, Z.eqb_refl.
-      * rewrite (Hk t HtT) in *. simpl in *. inversion Hout as [Hb].
+      * inversion Hout as [Hb]. split; [exact Hsort|]. apply KInv_more; auto. left. split; auto.
+      * rewrite (Hex t HtT) in *. simpl in *. inversion Hout as [Hb]. split; [now apply ksorted_del|].
+        apply KInv_more; auto. left. split; auto. left. now rewrite m_get_del, Z.eqb_refl.
+      * rewrite (proj1 (Hk t HtT)) in *. simpl in *. inversion Hout as [Hb]. split; [now apply ksorted_put|].
         apply KInv_new; [rewrite Eop; reflexivity|now symmetry|exact Ha|exact Ht|apply (Hkeep v ttl eq_refl)].
+  - (* a sweep: may collect the old expired entry, never one stored in the round *)
+    rewrite app_nil_r. split; [|intros; reflexivity]. split; [now apply SSorted_filter|].
+    destruct HK as [[He [Hm|(v & d & Hm & Hex)]]|(v & d & s0 & Hm & Hin & Hs & Hk)].
+    + left. split; auto. left. rewrite m_get_filter by exact Hsort. now rewrite Hm.
+    + left. split; auto. rewrite m_get_filter by exact Hsort. rewrite Hm. simpl.
+      destruct (swept fl t d); simpl; [now left|right; exists v, d; auto].
+    + right. exists v, d, s0. split; [|auto]. rewrite m_get_filter by exact Hsort. rewrite Hm. simpl.
+      now rewrite (proj2 (Hk t HtT)).
 Qed.
 
 Lemma race_run lin : forall m seen, KInv m seen -> Forall wf_ev lin -> Forall keeps_ev lin ->
@@ -148,8 +161,9 @@ Proof.
     + now apply Hgs.
 Qed.
 
-(* no false alarm for race rounds *)
+(* no false alarm for race rounds, sweeps included *)
 Theorem race_complete lin m te final :
+  ksorted m ->
   (m_get m k = None \/ exists v d, m_get m k = Some (v, d) /\ forall t, In t T -> expired t d = true) ->
   Forall wf_ev lin -> Forall keeps_ev lin -> Forall (fun x => In (snd x) T) lin -> In te T ->
   let run := srun fl defttl m (map (fun x => (snd x, ev_op k (fst x))) lin) in
@@ -157,14 +171,14 @@ Theorem race_complete lin m te final :
   snd (sstep fl defttl (fst run) te (OGet k)) = OutGet final ->
   race_ok defttl (stores_of lin) (gets_of lin) final = true.
 Proof.
-  intros Hm0 Hwf Hkeep HT Hte. cbv zeta. intros Hout Hfin.
-  destruct (race_run lin m [] (or_introl (conj eq_refl Hm0)) Hwf Hkeep HT Hout) as [HK Hg].
+  intros Hsort Hm0 Hwf Hkeep HT Hte. cbv zeta. intros Hout Hfin.
+  destruct (race_run lin m [] (conj Hsort (or_introl (conj eq_refl Hm0))) Hwf Hkeep HT Hout) as [[_ HK] Hg].
   simpl in HK. unfold race_ok. pose proof (Hg (stores_of lin) (incl_refl _)) as Hg'. rewrite Hg'. simpl.
   set (m' := fst (srun fl defttl m (map (fun x => (snd x, ev_op k (fst x))) lin))) in *.
   destruct HK as [[He [Hm|(v & d & Hm & Hex)]]|(v & d & s0 & Hm & Hin & Hs & Hk)]; simpl in Hfin; rewrite Hm in Hfin.
   - inversion Hfin; subst final. simpl. now rewrite He.
   - rewrite (Hex te Hte) in Hfin. simpl in Hfin. inversion Hfin; subst final. simpl. now rewrite He.
-  - rewrite (Hk te Hte) in Hfin. simpl in Hfin. inversion Hfin; subst final. simpl.
+  - rewrite (proj1 (Hk te Hte)) in Hfin. simpl in Hfin. inversion Hfin; subst final. simpl.
     apply existsb_exists. exists s0. split; [exact Hin|now apply smatch_rmatches].
 Qed.
 End RaceComplete.
